@@ -76,6 +76,10 @@ def run_world(world, idx=0, timeout=180, hashseed='0', extra_env=None, keep=Fals
         spec['falsy_streams'] = True
     if world.get('warmup_run'):
         spec['warmup_run'] = True
+    if world.get('warmup_world'):
+        wp = os.path.join(d, 'warmup_world.json')
+        json.dump(world['warmup_world'], open(wp, 'w'))
+        spec['warmup_world'] = wp
     if 'warnings' in world:
         spec['warnings'] = world['warnings']
     if 'child_cwd' in world:
